@@ -90,16 +90,21 @@ inductive GrpcOutcome where
   | dispatched         -- reaches the handler of this type (or "not found" for an unknown type)
   deriving Repr, DecidableEq
 
+/-- the branch that compares the cluster token -/
+def grpcClusterBranch (clusterTokenCfg : Str) (clusterHeader : Option Str) : Bool × Bool :=
+  if !clusterTokenCfg.isEmpty then
+    (false, match clusterHeader with | some c => c == clusterTokenCfg | none => false)
+  else (false, false)
+
 /-- `fill_token_session`: a user token is looked up only when auth is on **and** a token header is
 present; the cluster token is compared only otherwise. Returns (hasSession, clusterTokenValid). -/
 def grpcFill (enableAuth : Bool) (userToken : Option Str) (hasSession : Str → Bool)
     (clusterTokenCfg : Str) (clusterHeader : Option Str) : Bool × Bool :=
   match enableAuth, userToken with
-  | true, some t => (if t.isEmpty then false else hasSession t, false)
-  | _, _ =>
-    if !clusterTokenCfg.isEmpty then
-      (false, match clusterHeader with | some c => c == clusterTokenCfg | none => false)
-    else (false, false)
+  | true, some t =>
+    -- a token header that is present but empty counts as absent (`!token.is_empty()`)
+    if t.isEmpty then grpcClusterBranch clusterTokenCfg clusterHeader else (hasSession t, false)
+  | _, _ => grpcClusterBranch clusterTokenCfg clusterHeader
 
 def grpcDecide (enableAuth : Bool) (clusterTokenCfg : Str) (url : Str) (hasSession clusterValid : Bool) :
     GrpcOutcome :=
